@@ -13,6 +13,7 @@
   Import-free.
 -/
 import Model.Value
+import Model.Print
 import Model.Headers
 import Model.Assign
 import Model.RunLoop
@@ -83,6 +84,8 @@ structure Env where
   matchCount : Nat          -- current_match_count
   isLastLine : Bool         -- line_monitor.is_last_line()
   scanIsLast : Bool         -- scanner.is_last(line number)
+  pmeta : List (Value × Value) := []     -- CsvPath.metadata, for `$.metadata.x` in print strings
+  pstatic : List (Value × Value) := []   -- identity, delimiter, quotechar, for `$.csvpath.x`
   deriving Repr, Inhabited
 
 structure Cell where
@@ -640,7 +643,19 @@ def decideFn : Nat → Env → Nat → String → List String → List Node → 
           let (x, s1) := evalV fuel env a s
           match x with
           | .str t =>
-            if t.contains '$' then (none, unmodelled s1 "print with references (see the print model)")
+            if t.contains '$' then
+              -- references are resolved against what the run holds at this point of this line
+              let penv : Model.Print.PEnv :=
+                { vars := s1.v.vars.map (fun p => (Value.str p.1, p.2)), headers := env.headers, line := env.line,
+                  metadata := env.pmeta,
+                  fields := env.pstatic ++
+                    [(.str "count_lines", .int (env.idx + 1)), (.str "line_number", .int env.idx),
+                     (.str "count_scans", .int env.scanCount), (.str "count_matches", .int env.matchCount),
+                     (.str "valid", .bool s1.v.valid), (.str "stopped", .bool s1.v.stopped)] }
+              match Model.Print.printWith penv t with
+              | .printed out => (dflt, emit s1 (.print out))
+              | .error => (none, unmodelled s1 "print: the print string does not parse (an error, C05)")
+              | .unmodelled w => (none, unmodelled s1 w)
             else
               -- the template parser returns the text with its own trailing blank, which print() drops
               (dflt, emit s1 (.print t))
